@@ -2,16 +2,34 @@ package main
 
 import (
 	"fmt"
-	"time"
 
-	"github.com/pquerna/otp"
-	"github.com/pquerna/otp/totp"
+	"github.com/ysugimoto/falco/v2/config"
+	"github.com/ysugimoto/falco/v2/lexer"
+	"github.com/ysugimoto/falco/v2/linter"
+	lcontext "github.com/ysugimoto/falco/v2/linter/context"
+	"github.com/ysugimoto/falco/v2/parser"
+	"github.com/ysugimoto/falco/v2/resolver"
 )
 
 func main() {
-	defer func() { fmt.Println("recovered:", recover()) }()
-	for _, k := range []string{"ORZHKZI=", "ORZHKZI"} {
-		p, err := totp.GenerateCodeCustom(k, time.Now(), totp.ValidateOpts{Period: 255, Digits: otp.DigitsSix, Algorithm: otp.AlgorithmMD5, Skew: 0})
-		fmt.Println(k, p, err)
+	stmts := []string{
+		`set req.http.X-E = some.undefined.variable;`, `set var.i = "str";`, `set req.http.X-E = std.strlen();`, `set req.http.X-E = std.tolower(1);`,
+		`set req.http.Fastly-FF = "x";`, `set beresp.ttl = 1s;`, `set req.http.X-E = std.nope("a");`, `esi;`, `set req.http.X-E = table.lookup(nope, "k");`,
+		`set req.http.X-E = std.itoa(req.http.X-A) std.itoa(0, 1, 2);`, `set var.undeclared = 1;`, `set req.http.X-E = regsub(req.http.X-A);`,
+		`if (req.http.X-E == some.undefined.cond) { }`, `set req.http.X-A = "v";`, `set var.s = req.http.Host;`, `log "x" var.s;`, `set var.s = std.tolower(req.http.Host);`,
+	}
+	for _, s := range stmts {
+		src := "backend b { .host = \"127.0.0.1\"; .port = \"1\"; }\ntable t { \"a\": \"1\", }\nsub vcl_recv {\n#FASTLY recv\ndeclare local var.s STRING; declare local var.i INTEGER;\n" + s + "\n}\n"
+		vcl, err := parser.New(lexer.NewFromString(src, lexer.WithFile("main.vcl"))).ParseVCL()
+		if err != nil {
+			fmt.Println(s, "PARSE", err)
+			continue
+		}
+		lt := linter.New(&config.LinterConfig{})
+		lt.Lint(vcl, lcontext.New(lcontext.WithResolver(resolver.NewStaticResolver("main.vcl", src))))
+		fmt.Println(s)
+		for _, e := range lt.Errors {
+			fmt.Printf("    %d:%d [%s] rule=%q %s\n", e.Token.Line, e.Token.Position, e.Severity, e.Rule, e.Message)
+		}
 	}
 }
